@@ -109,6 +109,7 @@ pub struct ThreadOutcome {
     pub own_versions: u64,
     pub writer_ops: u64,
     pub bmca_runs: u64,
+    pub announces_checked: u64,
     pub problems: Vec<String>,
     pub watchdog: bool,
 }
@@ -144,7 +145,9 @@ pub fn threaded(seed: u64, n_ports: usize, n_observers: usize, ops_per_port: u64
         port_side.push((tx_in, rx_back));
     }
     let mut handles = vec![];
+    let announces_checked_total = Arc::new(AtomicU64::new(0));
     for (pi, (port, (tx_in, rx_back))) in ports.into_iter().zip(port_side).enumerate() {
+        let announces_checked = announces_checked_total.clone();
         let stop = stop.clone();
         let progress = progress.clone();
         let writer_ops = writer_ops.clone();
@@ -158,6 +161,7 @@ pub fn threaded(seed: u64, n_ports: usize, n_observers: usize, ops_per_port: u64
             let mut k: u64 = 1 + pi as u64 * 1000;
             let mut announcing = true;
             let mut done = 0u64;
+            let mut torn_announce: Option<String> = None;
             while done < ops_per_port && !stop.load(Ordering::Relaxed) {
                 if bmca_request.load(Ordering::Acquire) {
                     // hand the port over like the daemon's port task does
@@ -195,7 +199,25 @@ pub fn threaded(seed: u64, n_ports: usize, n_observers: usize, ops_per_port: u64
                     } else {
                         match rng.gen_range(0..4) {
                             0 => {
-                                let _ = own_acts(p.handle_announce_timer(&mut NoForwardedTLVs));
+                                // the Announce a master port builds is a snapshot of the data sets taken
+                                // by this thread: all of its fields must stem from one update
+                                for a in crate::node::own(p.handle_announce_timer(&mut NoForwardedTLVs)) {
+                                    let Act::SendGeneral { data, .. } = a else { continue };
+                                    let Ok(m) = Msg::decode(&data) else { continue };
+                                    let Body::Announce(b) = &m.body else { continue };
+                                    announces_checked.fetch_add(1, Ordering::Relaxed);
+                                    let valid = m.hdr.flags[1] & 0x04 != 0;
+                                    if b.gm_identity == own {
+                                        if !(valid && b.utc_offset == -7 && b.steps_removed == 0) {
+                                            torn_announce = Some(format!("Announce names the instance itself as grandmaster but carries utc offset {} (valid {valid}), stepsRemoved {}: mixes the own values with a parent update", b.utc_offset, b.steps_removed));
+                                        }
+                                    } else {
+                                        let k = u64::from_be_bytes(b.gm_identity);
+                                        if !(valid && b.utc_offset as i64 == (k % 30000) as i64 && b.steps_removed as u64 == k % 200 + 1 && b.gm_priority1 as u64 == k % 100) {
+                                            torn_announce = Some(format!("Announce of a master port mixes two updates: grandmaster identity says k={k}, but priority1 {} / stepsRemoved {} / utc offset {} (valid {valid}) do not belong to it", b.gm_priority1, b.steps_removed, b.utc_offset));
+                                        }
+                                    }
+                                }
                             }
                             1 => {
                                 let _ = own_acts(p.handle_sync_timer());
@@ -211,6 +233,11 @@ pub fn threaded(seed: u64, n_ports: usize, n_observers: usize, ops_per_port: u64
                 });
                 if let Err(pn) = r {
                     problems.lock().unwrap().push(if pn.nested_lock { "nested lock acquisition in a port thread".to_string() } else { format!("port thread panicked: {}", pn.describe()) });
+                    stop.store(true, Ordering::Relaxed);
+                    return;
+                }
+                if let Some(t) = torn_announce.take() {
+                    problems.lock().unwrap().push(t);
                     stop.store(true, Ordering::Relaxed);
                     return;
                 }
@@ -383,6 +410,7 @@ pub fn threaded(seed: u64, n_ports: usize, n_observers: usize, ops_per_port: u64
         own_versions: own_versions.load(Ordering::Relaxed),
         writer_ops: writer_ops.load(Ordering::Relaxed),
         bmca_runs: bmca_runs.load(Ordering::Relaxed),
+        announces_checked: announces_checked_total.load(Ordering::Relaxed),
         problems: problems.lock().unwrap().clone(),
         watchdog,
     };
@@ -593,6 +621,7 @@ pub fn run(rep: &mut Report, tier: &str, seed: u64, shard: (u32, u32), _replay: 
         rep.evn("distinct_versions_seen", o.distinct_k);
         rep.evn("own_version_snapshots", o.own_versions);
         rep.evn("bmca_runs_threaded", o.bmca_runs);
+        rep.evn("emitted_announces_checked_threaded", o.announces_checked);
         rep.evn("writer_ops_threaded", o.writer_ops);
         rep.evaluations += 1;
         for k in 0..o.distinct_k.min(2000) {
@@ -601,6 +630,8 @@ pub fn run(rep: &mut Report, tier: &str, seed: u64, shard: (u32, u32), _replay: 
         for p in &o.problems {
             let class = if p.contains("nested") {
                 "nested-acquisition-threaded"
+            } else if p.contains("Announce") {
+                "torn-announce"
             } else if p.contains("different updates") || p.contains("mixes") || p.contains("never written") || p.contains("matches neither") {
                 "torn-snapshot"
             } else {
